@@ -61,6 +61,8 @@ pub enum Event {
     DisallowBy { obs: usize, by: usize },
     VarDropped { who: Who, var: VarId },
     NodeUpdate { node: NodeId, kind: u8, value: Option<Val> },
+    /// the projection function of a map_ref node ran inside a stabilise
+    Projection { key: NodeKey },
 }
 
 /// counts live instances of everything the harness places inside the graph
@@ -124,6 +126,10 @@ pub struct Shared {
     pub kept: RefCell<std::collections::VecDeque<incremental::Incr<i64>>>,
     /// set once the harness starts dropping its handles: nothing is retained any more
     pub tearing_down: Cell<bool>,
+    /// findings made inside instrumented closures, collected after the stabilise
+    pub closure_problems: RefCell<Vec<(&'static str, String)>>,
+    /// consultations made so far of each installed boxed cutoff closure (by installation id)
+    pub cutoff_calls: RefCell<Vec<u64>>,
 }
 
 impl Shared {
@@ -143,6 +149,8 @@ impl Shared {
             weak_state: RefCell::new(None),
             kept: RefCell::new(Default::default()),
             tearing_down: Cell::new(false),
+            closure_problems: RefCell::new(Vec::new()),
+            cutoff_calls: RefCell::new(Vec::new()),
         })
     }
     pub fn log(&self, e: Event) {
